@@ -184,7 +184,10 @@ def cut_case(rng, kind="mlp", adaptive=False):
             ops.append("cs")
     ops.append(f"log {b}")
     cuts = [i for i in range(len(ops) + 1) if i == 0 or not ops[i - 1].startswith("skip")]
-    return {"cfg": cfg, "ops": ops, "cut": rng.choice(cuts)}
+    cut = rng.choice(cuts)
+    # periodic checkpointing: earlier checkpoints written by the same run (never loaded) must not influence the one resumed from
+    early = sorted(rng.sample(range(1, cut), rng.randint(1, min(2, cut - 1)))) if cut >= 2 and rng.random() < 0.6 else []
+    return {"cfg": cfg, "ops": ops, "cut": cut, "early_saves": early}
 
 
 # --------------------------------------------------------------------------- model side
@@ -392,7 +395,9 @@ def resume_oracle(scn, eps=True, carry_live=False):
     cfg, ops, cut = scn["cfg"], scn["ops"], scn["cut"]
     sig = f"{cfg['opt']}:{cfg['mech']}"
     a = R.RealEng(cfg)
-    for o in ops[:cut]:
+    for i, o in enumerate(ops[:cut]):
+        if i in scn.get("early_saves", ()):
+            a.do("save")   # an earlier checkpoint of the same run
         if isinstance(a.do(o), str):
             return None   # GDP with a changing sigma: not a resumable history
     at_save = snapshot(a, eps)
